@@ -62,15 +62,32 @@ def variants(case, sb, g, out, drv, key, thorough):
     return base, vios
 
 
-def hashseed_run(case, sb, seedval):
-    """a fresh interpreter with the given PYTHONHASHSEED documenting the same input (thorough tier)"""
+def child_run(case, sb, tag, env_extra, umask=None):
+    """a fresh interpreter with a changed environment documenting the same input; -> files dict, or None if the child failed"""
     script = os.path.join(os.path.dirname(os.path.abspath(__file__)), 's_c17_child.py')
     cfile = os.path.join(sb.dir, 'case.json')
     with open(cfile, 'w') as f: json.dump(case, f)
-    env = dict(os.environ, PYTHONHASHSEED=str(seedval))
-    p = subprocess.run([sys.executable, script, cfile, os.path.join(sb.dir, 'hs%s' % seedval)], capture_output=True, text=True, env=env, timeout=120)
+    env = dict(os.environ); env.update(env_extra)
+    pre = (lambda: os.umask(umask)) if umask is not None else None
+    p = subprocess.run([sys.executable, script, cfile, os.path.join(sb.dir, '+ch_%s+' % tag)], capture_output=True, text=True, env=env, timeout=120, preexec_fn=pre)
     if p.returncode != 0: return None
     return json.loads(p.stdout.strip().split('\n')[-1])
+
+
+def hashseed_run(case, sb, seedval):
+    """a fresh interpreter with the given PYTHONHASHSEED documenting the same input"""
+    return child_run(case, sb, 'hs%s' % seedval, dict(PYTHONHASHSEED=str(seedval)))
+
+
+# things of the process environment the output must not depend on: locale/encoding, time zone, terminal size, umask
+ENVIRONMENTS = [('c-locale', dict(LC_ALL='C', LANG='C', PYTHONCOERCECLOCALE='0', PYTHONUTF8='0'), None),
+                ('latin1-tz-term', dict(LC_ALL='en_US.ISO-8859-1', LANG='en_US.ISO-8859-1', PYTHONCOERCECLOCALE='0', PYTHONUTF8='0', TZ='Pacific/Kiritimati', COLUMNS='20', LINES='5', TERM='dumb', NO_COLOR='1'), 0o077),
+                ('utf8-umask0', dict(LC_ALL='C.UTF-8', TZ='America/St_Johns', COLUMNS='400'), 0)]
+
+
+def ascii_names(inp):
+    def rec(ch): return all(c['name'].isascii() and rec(c.get('children', [])) for c in ch)
+    return inp['name'].isascii() and rec(inp.get('children', []))
 
 
 def c17_suite(seed, count, out, drv, thorough=False, budget_s=None):
@@ -91,6 +108,15 @@ def c17_suite(seed, count, out, drv, thorough=False, budget_s=None):
                     out.traces_validated += 1
                     if r is None or r != base['files']:
                         vios.append(dict(kind='generated files changed by the hash seed', seed=hs)); break
+            # the process environment: only for trees with ASCII names (under an ASCII file-system encoding Python cannot even name the others)
+            if base['status'] == 'ok' and ascii_names(case['inputs'][0]) and out.dist['environment-children'] < (60 if thorough else 9):
+                tag, env_extra, um = ENVIRONMENTS[out.dist['environment-children'] % len(ENVIRONMENTS)]
+                out.dist['environment-children'] += 1; out.dist['environment:' + tag] += 1
+                r = child_run(case, sb, tag, env_extra, um)
+                out.traces_validated += 1
+                if r is None or r != base['files']:
+                    vios.append(dict(kind='generated files changed by the process environment', environment=tag, child_failed=r is None,
+                                     paths=None if r is None else (sorted(set(r) ^ set(base['files'])) or [p for p in r if r[p] != base['files'].get(p)])[:5]))
         for v in vios: out.violations.append(dict(suite='c17', key=key, case=case, detail=v, model_agrees=True))
         out.note_case(key, len(base['files']) >= 2 or case['inputs'][0]['kind'] == 'file')
         out.dist['kind:' + case['inputs'][0]['kind']] += 1; out.dist['spelled:' + case['inputs'][0].get('spelled', 'abs')] += 1
@@ -103,6 +129,14 @@ def c17_suite(seed, count, out, drv, thorough=False, budget_s=None):
 def replay(v, drv):
     from suites import Outcome
     o = Outcome('C17'); g = random.Random('replay')
+    d = v.get('detail') or {}
     with impl.Sandbox() as sb:
         base, vios = variants(v['case'], sb, g, o, drv, tuple(v.get('key', ())), False)
+        if d.get('environment'):
+            tag, env_extra, um = next(e for e in ENVIRONMENTS if e[0] == d['environment'])
+            r = child_run(v['case'], sb, tag, env_extra, um)
+            if r is None or r != base['files']: vios.append(dict(kind=d['kind'], environment=tag, child_failed=r is None))
+        if 'seed' in d:
+            r = hashseed_run(v['case'], sb, d['seed'])
+            if r is None or r != base['files']: vios.append(dict(kind=d['kind'], seed=d['seed']))
     return dict(fails=bool(vios), violations=vios[:3])
